@@ -647,6 +647,46 @@ def r5_clear_once(chk, prog):
     chk.require(n >= 4, 'assign() implementations that use mClearB4Assign: %d' % n)
 
 
+def r6_unique_option_is_stored(chk, prog):
+    """setUniqueData() of a destination type that supports the option switches the duplicate test on for EVERY
+    destination of that type: the value stored in mUniqueData is the constant true in every instantiation (also for
+    sorted containers: a multiset keeps duplicates, and a set must still be able to refuse one), and the
+    'duplicates are errors' request is stored as given."""
+    n = 0
+    for f in prog.functions:
+        if f.short != 'setUniqueData' or not (f.cls or '').startswith('celma::prog_args::detail::TypedArg<') or \
+                f.body is None:
+            continue
+        pname = f.params[0]['name'] if f.params else None
+        for x in f.walk():
+            if x.get('k') != 'BinaryOperator' or x.get('op') != '=':
+                continue
+            lhs, rhs = children(x)[0], children(x)[1]
+            fld = field_name(lhs)
+            # the branch of `if (dest_type_t::HasIterators)` is dead code in the instantiations without iterators
+            dead = False
+            for a in f.ancestors(x):
+                if a.get('k') == 'IfStmt':
+                    ks = children(a)
+                    cv = strip_all_casts(ks[0]).get('cv', ks[0].get('cv')) if ks and isinstance(ks[0], dict) else None
+                    if cv == 0 and len(ks) > 1 and isinstance(ks[1], dict) and any(y is x for y in walk(ks[1])):
+                        dead = True
+            if dead:
+                continue
+            if fld == 'mUniqueData':
+                n += 1
+                r0 = strip_all_casts(rhs)
+                v = r0.get('cv', rhs.get('cv', r0.get('val')))
+                chk.check(v in (1, True), 'R6', f.name, 'setUniqueData() switches the duplicate test on [%s]' % f.cls.split(
+                    'detail::', 1)[-1][:70], f.loc(x), 'the value stored in mUniqueData is %s in this instantiation: '
+                    'duplicates are stored / never refused' % ('not a constant' if v is None else bool(v)))
+            elif fld == 'mTreatDuplicatesAsErrors':
+                r0 = strip_all_casts(rhs)
+                chk.check(r0.get('k') == 'DeclRefExpr' and r0.get('ref', {}).get('name') == pname, 'R6', f.name,
+                          'the "duplicates are errors" request is stored as given', f.loc(x))
+    chk.require(n >= 4, 'setUniqueData overrides that store mUniqueData: %d' % n)
+
+
 def run(chk):
     prog, units = rules.prog_args_program()
     chk.units = units
@@ -669,3 +709,5 @@ def run(chk):
     r4(chk, prog)
     chk.rule('R5', 'a pending "clear before assign" is a one-shot request', 4)
     r5_clear_once(chk, prog)
+    chk.rule('R6', 'the unique-data option is stored for every destination type that supports it', 8)
+    r6_unique_option_is_stored(chk, prog)
